@@ -35,6 +35,10 @@ def run(prog: Program, rep: Report, tier: str) -> None:
     rep.rule("R6.4", "model extraction: the type is looked up in the complete DeviceType.hex_rep table with the hex text of bytes 74..75", 1)
     rep.trusted += ["slicing never raises; bytes.__len__; hexlify; dict semantics; logger.debug has no observable effect for the property", "spec/broadcast_layout.json gate section (from the property statement)"]
     spec = load_spec()
+    rep.rule("R6.6", "structural: no function reachable from the datagram builder declares a global or mutates / stores into a module-level name (a frame would be judged by what came before it)", 1, structural=True)
+    from .c07 import module_state_on_receive_path
+    ms_ = module_state_on_receive_path(prog)
+    rep.check(not ms_, "R6.6", "no module-level state on the receive path", "src/aioswitcher/bridge.py", f"{ms_[:3]}: whether and how a byte string is accepted depends on the byte strings seen before it", key="R6.6|module-state")
     # ---- R6.1
     outs, fi = run_getter(prog, "aioswitcher.bridge:DatagramParser", "is_switcher_originator", "message", MSG, None)
     if outs is None:
